@@ -389,7 +389,7 @@ def main(ctx):
                        "model are inconclusive", "division by zero excluded"]
     tools.wild()
     obj = tools.assemble(ctx, ".globl _start\n.text\n_start: mov $60,%eax\n xor %edi,%edi\n syscall\n")
-    nb = ctx.pick(40, 1000)
+    nb = ctx.pick(40, 400)
     per = ctx.pick(50, 100)
 
     def pinned(_):
